@@ -698,6 +698,65 @@ fn gen_dcase(rng: &mut Rng) -> DCase {
     DCase { base, classes, order, blocks, extra: rng.below(8) as u32, edits }
 }
 
+/// a requested spelling and keys that collapse onto it under plausible normalisations (trim of ASCII and
+/// Unicode blanks, BOM / zero-width characters, case folding, NFC/NFD, `_`/`-` variants).  A trailing NUL
+/// cannot be carried by an XML plist and is left out.
+const TAG_VARIANTS: &[(&str, &[&str])] = &[
+    ("liga", &["liga ", " liga", "liga\t", "\u{a0}liga", "liga\u{2003}", "\u{feff}liga", "liga\u{feff}", "liga\u{200b}", "LIGA", "Liga", "liGa", " liga ", "liga\n"]),
+    ("caf\u{e9}", &["cafe\u{301}", "caf\u{e9} ", "CAF\u{c9}", "Cafe\u{301}", " caf\u{e9}", "CAFE\u{301}"]),
+    ("cafe\u{301}", &["caf\u{e9}", "cafe\u{301}\u{a0}", "CAF\u{c9}", " cafe\u{301}"]),
+    ("ss-01", &["ss_01", "ss01", "SS-01", "ss-01 ", "ss\u{2013}01", "SS_01", " ss-01"]),
+    ("kern", &[" kern", "kern ", "Kern", "KERN", "\u{3000}kern", "kern\u{3000}", "k\u{200d}ern"]),
+];
+
+/// format 1 tree whose feature dictionary holds two or more keys that collapse onto a tag of the order list
+/// under a normalisation, without an exact key (the unmatched tag must be ignored, deterministically) or with
+/// one (the exact key must win)
+fn gen_variant_case(rng: &mut Rng) -> DCase {
+    let (base_tag, variants) = *rng.pick(TAG_VARIANTS);
+    let mut m: BTreeMap<String, String> = BTreeMap::new();
+    let want = 2 + rng.below(3);
+    while m.len() < want {
+        let v = rng.pick(variants).to_string();
+        let n = m.len();
+        m.entry(v).or_insert_with(|| format!("# block {}\n", n));
+    }
+    if rng.chance(1, 2) {
+        m.insert(base_tag.to_string(), "# exact block\n".to_string());
+    }
+    if rng.chance(1, 3) {
+        m.insert("zero".to_string(), "# zero\n".to_string());
+    }
+    let order = if rng.chance(5, 6) {
+        let mut o = vec![base_tag.to_string()];
+        if rng.chance(1, 2) {
+            o.push("zero".to_string());
+        }
+        if rng.chance(1, 3) {
+            // one of the variants asked for verbatim, and the requested spelling twice
+            o.push(rng.pick(variants).to_string());
+            o.push(base_tag.to_string());
+        }
+        if rng.chance(1, 2) {
+            o.reverse();
+        }
+        Some(o)
+    } else {
+        None
+    };
+    let mut glyphs = BTreeSet::new();
+    glyphs.insert("a".to_string());
+    let base = Case { fmt: 1, groups: None, kerning: None, glyphs, extra: BTreeSet::new() };
+    DCase {
+        base,
+        classes: if rng.chance(1, 2) { Some("@c = [a b];\n".to_string()) } else { None },
+        order,
+        blocks: Some(m),
+        extra: 0,
+        edits: Vec::new(),
+    }
+}
+
 pub fn gen(tier: &str, seed: u64, out: &mut dyn Write) {
     let mut rng = Rng::new(seed);
     let dir = scratch();
@@ -707,6 +766,13 @@ pub fn gen(tier: &str, seed: u64, out: &mut dyn Write) {
     for i in 0..n {
         let c = gen_dcase(&mut rng);
         let procs = if i % 8 == 0 { if thorough { 4 } else { 2 } } else { 0 };
+        let obs = observe_case(&c, &dir, loads, procs);
+        writeln!(out, "{} => {}", c.tokens(), obs).unwrap();
+    }
+    // feature tags that collapse under a normalisation: every case also in fresh processes (new hash seeds)
+    for i in 0..(if thorough { 800 } else { 80 }) {
+        let c = gen_variant_case(&mut rng);
+        let procs = if i % 2 == 0 { 2 } else { 0 };
         let obs = observe_case(&c, &dir, loads, procs);
         writeln!(out, "{} => {}", c.tokens(), obs).unwrap();
     }
